@@ -164,7 +164,28 @@ func buildTrace(sc *scenario) built {
 			case "shutdown":
 				add(Label{K: "shutdown", D: TC})
 			}
+		case "UB":
+			// reads of the 101 body by the copier, recorded by the transport wrapper
+			if e.Seq < replySeq {
+				continue
+			}
+			switch e.Op {
+			case "R":
+				if e.N > b.MaxRead {
+					b.MaxRead = e.N
+				}
+				add(Label{K: "read", D: TC, N: e.N, Data: e.Data})
+			case "Reof":
+				readEnded[TC] = true
+				add(Label{K: "readeof", D: TC})
+			case "Rerr":
+				tick(e.T)
+				add(Label{K: "abort", D: TC})
+			}
 		case "LC", "DC":
+			if sc.BodyObs && e.Who == "DC" && e.Seq > replySeq && (e.Op == "R" || e.Op == "Reof" || e.Op == "Rerr") {
+				continue // beneath the observed body: the copier reads the body, the body reads the connection
+			}
 			if e.Seq == replySeq {
 				add(Label{K: "reply"})
 				continue
@@ -233,7 +254,7 @@ func buildTrace(sc *scenario) built {
 					add(Label{K: "drain", N: e.N, Data: e.Data})
 					continue
 				}
-				if wd == TC && keptPending {
+				if wd == TC && keptPending && !sc.BodyObs {
 					keptPending = false
 					b.Inferred++
 					add(Label{K: "read", D: TC, N: b.KeptN, Data: b.Kept})
